@@ -187,10 +187,21 @@ def r4_copy_coverage(P, rep, ctx):
         rep.check(bool(ds_create) and bool(ds_attrs), "C05.R4", h.qual, "dataset branch: full value [()] and attributes", h.loc(), construct="dataset branch", message="dataset branch of h5_copy_from_to does not copy `source_node[()]` and the attributes")
         gr_create = [n for n in fb if any(call_attr(c) == "create_group" for c in g.calls(n))]
         gr_attrs = [n for n in fb if any(norm(c.func) == "copy_attrs" and norm(c.args[0]) == "source_node" for c in g.calls(n))]
-        rec = [n for n in fb if any(call_attr(c) == "visititems" and norm(c.func.value) == "source_node" for c in g.calls(n))]
+        # all descendants (unless shallow) reach copy_children: either visited directly with copy_children as callback,
+        # or listed first (helper / snapshot) and then fed to copy_children one by one
+        direct = [n for n in fb if any(call_attr(c) == "visititems" and norm(c.func.value) == "source_node" and c.args and norm(c.args[0]) == "copy_children" for c in g.calls(n))]
         sh = [tt for tt in g.nodes if tt.kind == "test" and norm(tt.exprs[0]) == "shallow"]
-        ok = bool(gr_create) and bool(gr_attrs) and bool(rec) and bool(sh) and all(g.edge_dominates(s.idx, "F", r) for s in sh for r in rec)
-        rep.check(ok, "C05.R4", h.qual, "group branch: group, attributes and (unless shallow) all descendants", h.loc(), construct="group branch", message="group branch of h5_copy_from_to does not create the group, copy its attributes and recurse over all descendants unless shallow")
+        ok_direct = bool(direct) and bool(sh) and all(g.edge_dominates(s.idx, "F", r) for s in sh for r in direct)
+        lister = P.functions.get(f"{O}._list_children")
+        ok_listed = False
+        if lister is not None:
+            lt = norm(lister.node)
+            lister_ok = "if shallow: return list(source_node.items())" in lt.replace("\n", " ") and "source_node.visititems(lambda name, child: ret.append((name, child)))" in lt and "return ret" in lt
+            listed = [n for n in fb if any(norm(c.func) == "_list_children" and [norm(a) for a in c.args] == ["source_node", "shallow"] for c in g.calls(n))]
+            loops = [n for n in fb if g.nodes[n].kind == "for" and norm(g.nodes[n].stmt.iter) == "src_children" and any(isinstance(b, ast.Expr) and norm(b.value) == f"copy_children({', '.join(norm(e) for e in g.nodes[n].stmt.target.elts)})" for b in g.nodes[n].stmt.body if isinstance(g.nodes[n].stmt.target, ast.Tuple))]
+            ok_listed = lister_ok and bool(listed) and bool(loops)
+        ok = bool(gr_create) and bool(gr_attrs) and (ok_direct or ok_listed)
+        rep.check(ok, "C05.R4", h.qual, "group branch: group, attributes and (unless shallow) all descendants", h.loc(), construct="group branch", message="group branch of h5_copy_from_to does not create the group, copy its attributes and copy all descendants (immediate children when shallow)")
     cc = h.nested.get("copy_children")
     t = norm(cc.node) if cc else ""
     ok = "isinstance(src_child, H5DatasetLike)" in t and "trg_root[name] = src_child[()]" in t and "trg_root.create_group(name)" in t and "copy_attrs(src_child, trg_root[name])" in t
